@@ -279,12 +279,29 @@ func scenarios(tier string) []scen {
 		readers = append(readers, []op{R(k1), R(k0)}, []op{Rd(k0), R(k0)})
 	}
 	var out []scen
+	async := func(c ccfg) bool { return c.Kind == "dir" && !c.SyncAdd && !c.Direct }
 	// two threads: one writer program, one reader program
 	for _, c := range cfgs {
 		for _, p := range pres {
 			for _, a := range t1s {
 				for _, d := range readers {
-					out = append(out, scen{Cfg: c, Pre: p, Threads: [][]op{a, d}, PB: 2})
+					pb := 2
+					if async(c) {
+						// background persistence adds a thread per commit: keep the bound at 1 in the quick tier
+						commits := 0
+						for _, o := range append(append([]op{}, p...), a...) {
+							if o.K == "W" && !o.Direct {
+								commits++
+							}
+						}
+						if tier != "thorough" {
+							pb = 1
+							if commits > 2 {
+								continue
+							}
+						}
+					}
+					out = append(out, scen{Cfg: c, Pre: p, Threads: [][]op{a, d}, PB: pb})
 				}
 			}
 		}
@@ -299,6 +316,9 @@ func scenarios(tier string) []scen {
 		w2 = append(w2, []op{A(k0), W(k0, 1)}, []op{W(k1, 1), W(k2, 9)})
 	}
 	for _, c := range cfgs {
+		if async(c) && tier != "thorough" {
+			continue
+		}
 		for _, p := range pres[:2] {
 			for _, a := range w1 {
 				for _, b := range w2 {
